@@ -70,6 +70,33 @@ func vxCheckOracles(file string) string {
 				return "the YAML-validity answer chosen by the solver is not what goccy/go-yaml says for this document"
 			}
 		}
+		if in.Kind == "yamlfits" && len(in.Vals) > 0 {
+			// does this (valid) document decode into the named Go type?
+			doc := make([]byte, 0, len(in.Vals))
+			for _, v := range in.Vals[1:] {
+				doc = append(doc, byte(v))
+			}
+			var err error
+			switch in.Label {
+			case "map[string]interface{}", "map[string]interface {}", "map[string]any":
+				var out map[string]interface{}
+				err = yaml.Unmarshal(doc, &out)
+			case "map[interface{}]interface{}", "map[interface {}]interface {}", "map[any]any":
+				var out map[interface{}]interface{}
+				err = yaml.Unmarshal(doc, &out)
+			case "[]interface{}", "[]interface {}", "[]any":
+				var out []interface{}
+				err = yaml.Unmarshal(doc, &out)
+			case "string":
+				var out string
+				err = yaml.Unmarshal(doc, &out)
+			default:
+				return "decoding YAML into " + in.Label + " cannot be checked against the library by the replay"
+			}
+			if (err == nil) != (in.Vals[0] != 0) {
+				return "the answer chosen by the solver for decoding this YAML document into " + in.Label + " is not what goccy/go-yaml says"
+			}
+		}
 	}
 	return ""
 }
